@@ -12,6 +12,7 @@ import Driver.Sweep2
 import Driver.Export
 import Driver.Progress
 import Driver.Bool3
+import Driver.BoolAsm
 import Driver.EdgeOp
 import Driver.CsgBatch
 import Driver.Ingest
@@ -39,6 +40,7 @@ def dispatch (line : String) : String :=
   | "export" :: rest => ExportDrv.handle rest
   | "progress" :: rest => ProgressDrv.handle rest
   | "bool3" :: rest => Bool3Drv.handle rest
+  | "boolasm" :: rest => BoolAsmDrv.handle rest
   | "edgeop" :: rest => EdgeOpDrv.handle rest
   | "csgbatch" :: rest => CsgBatchDrv.handle rest
   | "ingest" :: rest => IngestDrv.handle rest
